@@ -201,6 +201,17 @@ func checkC04(c *Ctx) {
 	ea.runE1E2E4("ERR-prune", "ERR-prune", "ERR-prune", inFns(dvt, dv, dlv, tow, l.Func("", "*nodeDB.traverseOrphans"), l.Func("", "*nodeDB.deleteFromPruning"), l.Func("", "*nodeDB.saveNodeFromPruning"), l.Func("", "*nodeDB.DeleteVersionsTo")))
 	ea.runE3("ERR-E3-orphans", inFns(tow))
 	ea.runE3Strict("ERR-E3-orphans", tow)
+	c.rule("ERR-E7-sentinel-path", "the 'version does not exist' decisions of the pruning loop can still be taken", 3)
+	ea.runE7("ERR-E7-sentinel-path", inFns(dvt, dv, dlv, tow, l.Func("", "*rootkeyCache.getRootKey")))
+	c.rule("ERR-E5-sticky", "the node iterators of the orphan diff keep the error of a failed step", 2)
+	ea.runStickyLoop("ERR-E5-sticky", func(fn *ssa.Function) bool {
+		r := fn.Signature.Recv()
+		if r == nil {
+			return false
+		}
+		n := derefNamed(r.Type())
+		return n != nil && n.Obj().Name() == "NodeIterator"
+	})
 
 	// (2b) identity of shared subtrees
 	c.rule("DOM-shared-by-hash", "a subtree is skipped as shared only on hash equality", 1)
